@@ -17,6 +17,10 @@ FIRST = {
     "S08b-scheduler-start-count-ignores-retraction": ("missed", "C08 gained scripted_trace (retracting plan-ahead policy whose attributes match the offers it asks for)"),
     "S17b-stale-topological-order-cache": ("missed", "C17 gained graph_history: all clauses re-asked after every add_node/add_child/remove on one Graph object"),
     "S01b-reload-profile-skips-booking": ("missed", None),
+    "S16c-eq-through-hash": ("missed (one magic pair)", "C16 values are biased to the neighbours of 0 and of the invalid marker (-4..4 us)"),
+    "S09c-fixed-gamma-policy-unseeded": ("missed (policy kind not reachable through main.py)", "C09 gained release_policies_two_processes: poisson/gamma/fixed_gamma policies built through the API without rng_seed in two fresh processes after random.seed(N)"),
+    "S17c-critical-path-weights-ignore-units": ("missed", "C17 task graphs write whole-millisecond runtimes in milliseconds"),
+    "S15c-remove-task-stops-at-first-missing-queue": ("missed", "C15 models list their strategies in a drawn order (was always ascending by runtime)"),
     "S01c-zero-quantity-entry-breaks-loop": ("missed by C01 (caught by C04 resources_machine)", "C01 worlds now contain demand vectors with a zero-quantity entry ahead of the real ones"),
     "S02c-release-event-uses-finished-tasks-release-time": ("missed (oracle gap: the judge compared the start with the release *event*, which the change itself moves)", "C02 also requires start >= Task.intended_release_time (graph release, closed-loop follow-up = completion + 1)"),
     "S04c-rollback-releases-prior-holdings": ("missed (shape too rare)", "C04 resources_machine draws requests that name one type by 'any' and by instance id (rollback path), also for computations that already hold resources"),
